@@ -4,7 +4,7 @@ from .. import gen, elect, refstv
 from ..common import Names, rat
 
 PROP = "C01"
-LEAN_MODULE = "VK.Props.C01"
+LEAN_MODULE = "VK.Props.C01Dictator"
 THEOREMS = [
     "VK.C01_topM_two_states",
     "VK.stvStep_inv",
@@ -27,6 +27,10 @@ THEOREMS = [
     "VK.C01_boosted_exactly_m",
     "VK.C01_condoborda_exactly_m",
     "VK.C06_dominating_sets_elects_top",
+    "VK.removeCand_castOK",
+    "VK.dictatorPick_mem",
+    "VK.C01_random_dictator_partition",
+    "VK.C01_boosted_partition",
 ]
 RULE = ("cases = rule (18 classes) x random valid profile (1-6 candidates incl. zero-vote ones, 0-10 ballots, partial "
         "ballots, tied positions where the rule allows them, unit/int/rational weights; score ballots within limits for "
